@@ -6,8 +6,8 @@ from harness.props.sched_common import Ledger, SchedProp, cap_vec, chains_of, lo
 class C12(SchedProp):
     ID = "C12"
     PROPS_FILE = "Props/C12.v"
-    LEVEL_TEXT = ('C12_valid_iff_fits: on a level with declared hardware whose ledger is within capacity (C10_capacity), a location is found valid EXACTLY when the requirement fits capacity - ledger on cores, memory and every mount point. C12_quiescent (flat locations with hardware or slots, one location per request): starting from any state satisfying the scheduler invariant (every state reached by a conformant history does), along a wake-up round in which the waiters re-evaluate in any order and some are granted, a request that was short of valid locations at its turn is still short in the state at the end of the round, so re-evaluating it there does not grant it. Wake protocol (Sched/Wake.v): a coroutine-level transition system of `async with wait_queue` / wait() / notify_all() (state = scheduler state + lock holder + lock FIFO + Condition waiter FIFO + a program counter per task; actions = acquire, and the critical section of the holder up to the release: a request evaluates and returns or parks, a notifier updates, moves every parked waiter to the lock FIFO and returns). C12_wake_refines_round_partial: every execution segment without notification is a wake round over the requests it evaluates, each exactly once, in lock order (a second notification may interleave: the segment is then a prefix of the round and the rest is re-evaluated after it). C12_no_lost_wakeup_partial / C12_parked_not_grantable: in every reachable state a parked request was evaluated after the last notification and, if short of valid locations then, still is (composition with C12_quiescent, flat domain, conformant projected history); in a quiescent state every issued ungranted request is parked and nobody holds or queues for the lock. The shape of the real protocol state at every quiescent point (lock free, no lock waiters, #parked = #live _process_target tasks) is part of the correspondence. Outside the system: exceptions escaping a critical section (skipping notify_all: known multi-location finding), retry_delay timers, cancellation of a parked task, several targets per request, the Lock/Condition implementation of asyncio. C12_eventually_partial (flat domain; idle-point safety under ASSUMED fairness - every fireable/running job eventually notified, every notification followed by a full round - not liveness of the implementation): a continuation is a sequence of phases = a fireable/running job is notified a status outside {FIREABLE,RUNNING}, then every pending request is re-evaluated once in any order; C12_phases_measure: #fireable/running + #pending decreases by exactly one per phase (so, every fireable/running job being eventually notified, an idle point is reached within nact + |pending| phases); at an idle point reached by >= 1 phase of a conformant continuation no request for a location with declared hardware whose requirement fits the total capacity minus the measured residue (explicit assumption; by C11_release the idle ledger is exactly that residue) is still pending. C12_granted_on_release_partial (any locations): if some waiter would be granted when evaluated in the state right after a notification (e.g. exactly the n locations it needs are valid = fit the free capacity), the wake-up round grants at least one waiter whatever the order, and only waiters are granted. C12_quiescent_stacked: the same stability of re-evaluation along a wake-up round for chains of stacked levels (hardware or slot levels, outer or inner), from any state satisfying Inv2 (every state reached by a conformant2 history). C12_quiescent_partial (any locations, stacked included): a wake-up round (every waiter re-evaluates once, any order) that grants nothing leaves the state unchanged and every waiter evaluated-and-ungrantable in that final state. Theorems (Coq, closed) about one re-evaluation of a waiting request, for every state and every chain of stacked levels: the set of valid locations is exactly the candidates passing _is_valid; the request is granted only from valid locations; with exactly n>=1 valid locations it is granted whatever the policy answers; with fewer than n it keeps waiting and the state is unchanged (waiting consumes nothing); slot validity is count < slots. C12_rollback_blocks_refuted: a rolled-back job stays listed on the inner slot location and blocks later jobs of its step although nothing is fireable or running (known finding). The wake-up mechanism itself is exercised, not modelled: the real scheduler runs under a seeded permuting event loop; at every quiescent point (ready queue empty) every pending request is compared with the free capacity computed from the property text.')
-    LEVEL_NOTE = ("Partial. The model takes as inputs (observed from the real run, not modelled) the resolved requirement map, the policy's choice, du results and re-bound hardware; asyncio (Condition, task order) is exercised under a seeded permuting loop, not modelled. The history-level theorems hold on stated domains only (flat or stacked chains, one location per allocation, coherent releases, conformant lifecycle); outside them, and for the link between model and code, the statement is judged on every real run by an oracle written from the property text (ledger rebuilt from observations) and by replaying the run's event trace on the model. The model's history ends when an operation raises (run = Err), whereas the real scheduler goes on half-updated (e.g. notify_status raising out of _free_resources: status changed, nothing released, no notify_all): such runs are judged by the oracle only. Trusted: Coq kernel + vm_compute, Sched/Model.v, Hardware/Model.v, the harness fakes. No axioms. Missing: on stacked slot levels 'short of valid locations' does not coincide with 'no free capacity' (known finding), liveness with several candidate locations (policy-dependent) or slot locations, and asyncio's own Lock/Condition implementation (assumed FIFO as documented; exercised at every quiescent point of the real runs).")
+    LEVEL_TEXT = ('C12_valid_iff_fits: on a level with declared hardware whose ledger is within capacity (C10_capacity), a location is found valid EXACTLY when the requirement fits capacity - ledger on cores, memory and every mount point. C12_quiescent (flat locations with hardware or slots, one location per request): starting from any state satisfying the scheduler invariant (every state reached by a conformant history does), along a wake-up round in which the waiters re-evaluate in any order and some are granted, a request that was short of valid locations at its turn is still short in the state at the end of the round, so re-evaluating it there does not grant it. Wake protocol (Sched/Wake.v): a coroutine-level transition system of `async with wait_queue` / wait() / notify_all() (state = scheduler state + lock holder + lock FIFO + Condition waiter FIFO + a program counter per task; actions = acquire, and the critical section of the holder up to the release: a request evaluates and returns or parks, a notifier updates, moves every parked waiter to the lock FIFO and returns). C12_wake_refines_round_partial: every execution segment without notification is a wake round over the requests it evaluates, each exactly once, in lock order (a second notification may interleave: the segment is then a prefix of the round and the rest is re-evaluated after it). C12_no_lost_wakeup_partial / C12_parked_not_grantable: in every reachable state a parked request was evaluated after the last notification and, if short of valid locations then, still is (composition with C12_quiescent, flat domain, conformant projected history); in a quiescent state every issued ungranted request is parked and nobody holds or queues for the lock. C12_no_lost_wakeup_stacked_partial / C12_parked_not_grantable_stacked: the same composed with C12_quiescent_stacked, for chains of stacked levels with arbitrarily many tasks, jobs and locations. The shape of the real protocol state at every quiescent point (lock free, no lock waiters, #parked = #live _process_target tasks) is part of the correspondence. Outside the system: exceptions escaping a critical section (skipping notify_all: known multi-location finding), retry_delay timers, cancellation of a parked task, several targets per request, the Lock/Condition implementation of asyncio. C12_eventually_partial (flat domain; idle-point safety under ASSUMED fairness - every fireable/running job eventually notified, every notification followed by a full round - not liveness of the implementation): a continuation is a sequence of phases = a fireable/running job is notified a status outside {FIREABLE,RUNNING}, then every pending request is re-evaluated once in any order; C12_phases_measure: #fireable/running + #pending decreases by exactly one per phase (so, every fireable/running job being eventually notified, an idle point is reached within nact + |pending| phases); at an idle point reached by >= 1 phase of a conformant continuation no request for a location with declared hardware whose requirement fits the total capacity minus the measured residue (explicit assumption; by C11_release the idle ledger is exactly that residue) is still pending. C12_granted_on_release_partial (any locations): if some waiter would be granted when evaluated in the state right after a notification (e.g. exactly the n locations it needs are valid = fit the free capacity), the wake-up round grants at least one waiter whatever the order, and only waiters are granted. C12_quiescent_stacked: the same stability of re-evaluation along a wake-up round for chains of stacked levels (hardware or slot levels, outer or inner), from any state satisfying Inv2 (every state reached by a conformant2 history). C12_quiescent_partial (any locations, stacked included): a wake-up round (every waiter re-evaluates once, any order) that grants nothing leaves the state unchanged and every waiter evaluated-and-ungrantable in that final state. Theorems (Coq, closed) about one re-evaluation of a waiting request, for every state and every chain of stacked levels: the set of valid locations is exactly the candidates passing _is_valid; the request is granted only from valid locations; with exactly n>=1 valid locations it is granted whatever the policy answers; with fewer than n it keeps waiting and the state is unchanged (waiting consumes nothing); slot validity is count < slots. C12_rollback_frees_inner_slot: the former finding (a rolled-back job stayed listed on the inner slot location and blocked later jobs although nothing was fireable or running) after its fix in /repo (328356e: ROLLBACK removes the job from every stacked level). The wake-up mechanism itself is exercised, not modelled: the real scheduler runs under a seeded permuting event loop; at every quiescent point (ready queue empty) every pending request is compared with the free capacity computed from the property text.')
+    LEVEL_NOTE = ("Partial. The model takes as inputs (observed from the real run, not modelled) the resolved requirement map, the policy's choice, du results and re-bound hardware; asyncio (Condition, task order) is exercised under a seeded permuting loop, not modelled. The history-level theorems hold on stated domains only (flat or stacked chains, one location per allocation, coherent releases, conformant lifecycle); outside them, and for the link between model and code, the statement is judged on every real run by an oracle written from the property text (ledger rebuilt from observations) and by replaying the run's event trace on the model. The model's history ends when an operation raises (run = Err), whereas the real scheduler goes on half-updated (e.g. notify_status raising out of _free_resources: status changed, nothing released, no notify_all): such runs are judged by the oracle only. Trusted: Coq kernel + vm_compute, Sched/Model.v, Hardware/Model.v, the harness fakes. No axioms. Missing: liveness with several candidate locations (policy-dependent) or slot locations, and asyncio's own Lock/Condition implementation (assumed FIFO as documented; exercised at every quiescent point of the real runs).")
 
     def oracle(self, case, obs):
         if "crash" in obs or "hang" in obs:
